@@ -4,4 +4,4 @@ Require Extraction.
 Require Import ExtrOcamlBasic.
 Extraction Language OCaml.
 Extraction "c07_model.ml" x_sink_session x_buf_session x_mem_session x_buf_drop
-  o_calls o_fin o_final o_cnt s_data s_calls s_flushes b_inner b_buf.
+  o_calls o_fin o_final o_cnt s_data s_calls s_flushes s_unflushed b_inner b_buf.
